@@ -34,7 +34,7 @@ CLAIMS_DEC = "<cwt::ClaimsSet as common::AsCborValue>::from_cbor_value"
 CENSUS = {
     ("pre", "type-error:slot?"),
     ("all", "propagate:<common::RegisteredLabelWithPrivate<T> as common::AsCborValue>::from_cbor_value"),
-    ("all", "err:DuplicateMapKey@contains"),
+    ("all", "err:DuplicateMapKey"),
     ("1", "propagate:" + codec.TRY_STRING), ("2", "propagate:" + codec.TRY_STRING), ("3", "propagate:" + codec.TRY_STRING),
     ("4", "propagate:<cwt::Timestamp as common::AsCborValue>::from_cbor_value"),
     ("5", "propagate:<cwt::Timestamp as common::AsCborValue>::from_cbor_value"),
